@@ -1,0 +1,48 @@
+//! Verification instrumentation (cargo feature `verif-hooks`; never compiled otherwise).
+//!
+//! A thread-local counter of formatter node visits ("ticks"), with an optional budget. The
+//! formatter calls [`tick`] at the top of its recursive entry points, so the count is a
+//! deterministic measure of the work done for one input. When a budget is set and exceeded,
+//! [`tick`] unwinds with a [`TickBudgetExceeded`] payload, which the caller can catch.
+
+use std::cell::Cell;
+
+/// Panic payload used when the tick budget is exceeded
+#[derive(Debug, Clone, Copy)]
+pub struct TickBudgetExceeded(pub u64);
+
+thread_local! {
+    static TICKS: Cell<u64> = const { Cell::new(0) };
+    static BUDGET: Cell<u64> = const { Cell::new(u64::MAX) };
+}
+
+/// Resets the tick counter of the current thread to zero
+pub fn reset() {
+    TICKS.with(|t| t.set(0));
+}
+
+/// Returns the number of ticks counted on the current thread since the last [`reset`]
+pub fn ticks() -> u64 {
+    TICKS.with(|t| t.get())
+}
+
+/// Sets the tick budget of the current thread (`u64::MAX` disables it)
+pub fn set_budget(budget: u64) {
+    BUDGET.with(|b| b.set(budget));
+}
+
+/// Counts one formatter node visit
+#[inline]
+pub fn tick() {
+    let now = TICKS.with(|t| {
+        let v = t.get().wrapping_add(1);
+        t.set(v);
+        v
+    });
+    let budget = BUDGET.with(|b| b.get());
+    if now > budget {
+        // Disarm, so that unwinding code which formats again does not panic a second time
+        BUDGET.with(|b| b.set(u64::MAX));
+        std::panic::panic_any(TickBudgetExceeded(now));
+    }
+}
